@@ -1,7 +1,7 @@
 """D rules: the Django cache backend adapter."""
 import ast
 
-from .framework import rule, Ob, fmt_trace, values_in
+from .framework import rule, Ob, fmt_trace, values_in, real_call
 from .model import AnalysisError, walk_shallow, dotted
 from .values import V
 
@@ -34,7 +34,7 @@ def d1(ctx):
             if p.kind == 'cut':
                 continue
             for e in p.trace:
-                if e.kind != 'CALL' or e.fn is not f:
+                if not real_call(e):
                     continue
                 tg = e.d['targets']
                 if all(t.cls == 'FanoutCache' for t in tg) and any('key' in t.params for t in tg):
@@ -70,7 +70,7 @@ def d2(ctx):
         ok, n, wit = True, 0, None
         for p in ctx.paths(f, 'default'):
             for e in p.trace:
-                if e.kind == 'CALL' and e.fn is f and all(t.cls == 'FanoutCache' for t in e.d['targets']):
+                if real_call(e) and all(t.cls == 'FanoutCache' for t in e.d['targets']):
                     t = e.d['targets'][0]
                     if 'expire' not in t.params:
                         continue
@@ -126,6 +126,9 @@ def d2(ctx):
                     wit = fmt_trace(p.trace)
             elif rv == t:
                 res['other-unchanged'][0] = True
+                # returning the argument unchanged also passes None through
+                if known_none is not False:
+                    res['none-is-forever'][0] = True
             else:
                 res['other-unchanged'][1] = False
                 wit = fmt_trace(p.trace)
@@ -207,7 +210,7 @@ def d4(ctx):
             if p.kind not in ('return', 'next'):
                 continue
             n += 1
-            down = [e for e in p.trace if e.kind == 'CALL' and e.fn is f and
+            down = [e for e in p.trace if real_call(e) and
                     all(t.cls in ('FanoutCache', 'DjangoCache') for t in e.d['targets']) and
                     e.d['targets'][0].name not in ('get_backend_timeout', 'make_key')]
             if len(down) != 1:
